@@ -213,7 +213,7 @@ def conc_campaign(ctx, n, only, extra_args=()):
                          "(role, mode, actors, closer, echo, window) configurations")
 
 
-SIG_REFINE = {"not-a-behaviour-of-WSConn", "invariant-of-WSConn-violated-on-a-real-execution"}
+SIG_REFINE = {"not-a-behaviour-of-WSConn", "invariant-of-WSConn-violated-on-a-real-execution", "refine-scenario-calls-did-not-return"}
 
 
 @check("C16")
@@ -231,8 +231,14 @@ def c16(ctx, replay):
 
 @check("C05")
 def c05(ctx, replay):
-    wsconn_model(ctx, ["quick", "quick-server"] if ctx.quick() else ["quick", "quick-server", "thorough"])
+    wsconn_model(ctx, ["quick", "quick-server", "twowriters"] if ctx.quick() else ["quick", "quick-server", "twowriters", "thorough"])
+    # a streaming writer whose Close fails keeps the message lock (the unfinished message stays on the wire): the model with the
+    # lock released on every return path must be violated
+    wsconn_deviation_regression(ctx, ["UnlockOnFailure"])
     core.refine_validate(ctx, 200 if ctx.quick() else 1500, only=SIG_REFINE)
+    # ... and the scenario with cancelled contexts (incl. a context the application cancels between two chunks of an open message
+    # while a second writer is queued behind the message lock)
+    core.refine_validate(ctx, 200 if ctx.quick() else 1500, only=SIG_REFINE, kind="ctx")
     conc_campaign(ctx, 300 if ctx.quick() else 4000, SIG_C05)
     repo_tests_traced(ctx, SIG_C05 - {"data-frame-by-non-owner-of-message"})
     race_campaign(ctx, 150 if ctx.quick() else 1500)
@@ -724,6 +730,9 @@ def c19(ctx, replay):
     rec, out = ctx.tlc("WSJson", "WSJson.dev.cfg", expect_ok=False, name="wsjson-model-with-aliasing-deviation")
     if "is violated" not in out:
         raise Infra("model regression: ResultAliasesBuffer is no longer caught")
+    rec, out = ctx.tlc("WSJson", "WSJson.dev-residue.cfg", expect_ok=False, name="wsjson-model-with-failed-write-residue")
+    if "OneValuePerMessage is violated" not in out:
+        raise Infra("model regression: WriterKeepsFailedValue is no longer caught")
     rows, trace = ctx.path("json.ndjson"), ctx.path("jpool.ndjson")
     ctx.tlc("WSJsonRows", "Rows.cfg", env={"OUT": rows, "DEPTH": 1 if ctx.quick() else 2}, workers=4, name="json-shapes")
     rep = ctx.drive("wsjson", ["-rows", rows, "-seed", ctx.seed, "-pool-trace", trace] + ([] if ctx.quick() else ["-stride", "2"]), timeout=3600)
